@@ -39,6 +39,19 @@ def run(ctx):
     from props import C09
     C09.check_text_impls_escape(ctx, f)
     K.check_raw_text_writers(ctx, f)
+    # what a parser stores is the text it was given: the service URI of an RFC 8183 response is written verbatim, so a
+    # parser that folds its case (or trims it) does not give back an equal message
+    def _http_payload(v):
+        # Ok(ServiceUri::Http(x)) -> x ; other variants are parsed by their own types
+        if v[0] == "agg" and str(v[2]) == "Ok" and v[3]:
+            inner = strip_deep(v[3][0][1])
+            if inner[0] == "agg" and str(inner[2]) == "Http" and inner[3]:
+                return [strip_deep(inner[3][0][1])]
+            return []
+        return []
+    K.check_returns_kept(ctx, f, "R-FLOW", "<ca::idexchange::ServiceUri as std::str::FromStr>::from_str",
+                         "ServiceUri::from_str stores a plain-http URI exactly as given (no case folding, no trimming)",
+                         r"^(%1|value)$", key="ServiceUri::from_str:http-text-kept", through=_http_payload)
     K.check_base64_chunking(ctx, f)
 
     # ---- C11.a name tables --------------------------------------------------------------
